@@ -378,7 +378,7 @@ def add_basic(u, names=None):
         f.ens("res.wf()", "res.coefficients@.len() == 1", "res.c(0) == 0real", "res.tolerance@ == 1real / 10000000000real")
     if want("with_tolerance"):
         f = im.fn("with_tolerance")
-        f.ens("tolerance@ < 0real ==> res is Err",
+        f.ens("tolerance@ < 0real ==> res is Err", "tolerance@ > 0real ==> res is Ok",
               "res is Ok ==> res->Ok_0.coefficients@.len() == 1 && res->Ok_0.c(0) == 0real && res->Ok_0.tolerance == tolerance")
     if want("from_slice"):
         f = im.fn("from_slice").opt(subst=COPIED)
@@ -531,3 +531,18 @@ def add_basic(u, names=None):
 
 
     return im
+
+
+def from_vec_shim(u):
+    """the FromIterator impl of Polynomial instantiated at I = Vec<R> (what `.collect()` into a Polynomial and
+    `Polynomial::from_iter` call); `Vec::from_iter(vec)` is that vector (rule R20)"""
+    import copy
+    c2 = copy.copy(u.cfg)
+    c2.drop_generics = set(u.cfg.drop_generics) | {"I"}
+    c2.type_subst = [(["I"], "Vec<R>")] + u.cfg.type_subst
+    im = u.impl(PFILE, "FromIterator<N> for Polynomial<N>", header="impl Polynomial", keep_assoc=False, cfg=c2)
+    f = im.fn("from_iter")
+    f.rename = "vx_from_vec"
+    f.opt(subst=[("Vec::from_iter(iter)", "iter", "R20-vec-from-iter-of-vec")])
+    f.ens("res.coefficients@ == iter@", "res.tolerance@ == 1real / 10000000000real")
+    return f
